@@ -27,8 +27,9 @@ BOUNDS = {
              'the reply stream is cut at any one position inside or next to '
              'the symbolic reply; the scripted server only releases a reply '
              'once the command that causes it has been received',
-    'thorough': 'any TWO replies symbolic, n<=3 recipients, 2 symbolic '
-                'characters per line',
+    'thorough': 'n<=3 recipients, 2 symbolic characters per line of the one '
+                'symbolic reply; plus any TWO replies symbolic (1 character '
+                'per line) for program A with one recipient',
 }
 OUTSIDE = 'AUTH and STARTTLS exchanges (C08); more recipients / lines'
 STUBS = ['ScriptedServer socket (SMTP/LMTP framing automaton: one scripted '
@@ -36,7 +37,7 @@ STUBS = ['ScriptedServer socket (SMTP/LMTP framing automaton: one scripted '
          'when the scripted DATA reply is 354, LMTP: one end-of-data reply '
          'per RCPT it answered with 2xx)', 'slimta.logging -> no-ops']
 ASSUMPTIONS = ['reply text first characters are not white space']
-CELL_BUDGET_S = {'quick': 240, 'thorough': 2400}
+CELL_BUDGET_S = {'quick': 240, 'thorough': 1500}
 SAMPLE_P = 0.02
 MAX_WITNESSES = 10
 MAX_DECISIONS = 40000
@@ -53,7 +54,11 @@ def cells(tier):
                         continue
                     out.append({'prog': prog, 'lmtp': lmtp, 'pipe': pipe,
                                 'n': n, 'c': 1, 'chars': 1 if q else 2,
-                                'nsym': 1 if q else 2})
+                                'nsym': 1})
+            if not q:
+                # two symbolic replies at once (one character per line)
+                out.append({'prog': 'A', 'lmtp': lmtp, 'pipe': pipe, 'n': 1,
+                            'c': 1, 'chars': 1, 'nsym': 2})
     for pipe in (0, 1):
         # the same address given to RCPT twice (LMTP owes one end-of-data
         # reply per accepted RCPT command, not per distinct address)
